@@ -9,7 +9,7 @@ events are replayed through `Dl.step Cfg.fixed`, the model of the code as it is 
                                     (<saw> = <dropped>/<synced>/<stalled> as observed: chooses among the orders of registration, see below)
   p2p-sync <scenario> | ok          p2p-net-survived | ok               (monitor verdicts of the stream: echoed)
 
-Tokens: init:<K>  t:<ticks>  reg:<P>  dc:<P>  dcx:<P>  sync:<P>:<head>  hp:<P>:<k|u|w><p|s|f|x>:<ids>  bq:<P>:<ids>  bp:<P>:<id>:<hwv>,…
+Tokens: init:<K>  t:<ticks>  reg:<P>  dc:<P>  dcx:<P>  lv:<P>  sync:<P>:<head>  hp:<P>:<k|u|w><p|s|f|x>:<ids>  bq:<P>:<ids>  bp:<P>:<id>:<hwv>,…
 (ids: comma separated numbers and ranges a-b in either direction, `-` = none).
 
 How a token becomes events:
@@ -17,6 +17,7 @@ How a token becomes events:
   reg        `register`
   dc         `update []` (the node dropped a judged peer: what made it do so happened before; the model decides by itself)
   dcx        `update []`, `unregister` (a peer that is not judged: the model is told)
+  lv         `unregister` (the peer left by itself - disconnect message, connection closed or reset, protocol error; not judged)
   sync       `sync p head` — when the model still holds a run (a head probe proves the node was not busy) preceded by up to 10
              × (`tick`, `update []`) while it runs, then `cancel`
   hp         `hashes p ⟨ids, q⟩`
@@ -125,6 +126,11 @@ def dlToken (d : DlSt) (tok : String) : Option DlSt :=
       let (d, i) := dlPeer d p
       -- the node dropped a peer that is not judged: the model is told
       pure (dlRun d [.update [], .unregister i])
+  | ["lv", p] =>
+      let (d, i) := dlPeer d p
+      -- the peer left by itself: UnregisterPeer. What the node had asked it for stays in flight (until the time-out of the hash
+      -- request fires / `queue.Expire` hands the block request back)
+      pure (dlRun d [.unregister i])
   | ["sync", p, h] => do
       let h ← h.toNat?
       let (d, i) := dlPeer d p
